@@ -59,7 +59,7 @@ if __name__ == "__main__":
         results = list(ex.map(lambda s: run(s, tier), seeds))
     caught = 0
     for r in results:
-        prop = [x for x in r["seed"].split("-") if x.startswith("C")][0]
+        prop = ([x for x in r["seed"].split("-") if x.startswith("C") and x[1:].isdigit()] or [""])[0]
         own = prop in r["fires"]
         anyf = bool(r["fires"])
         caught += anyf
